@@ -83,7 +83,15 @@ the Go code and a concrete instance.
     fragment since sections 3–5, `s.len()` since 19; new are `o.is_some()` / `o.is_none()` as expressions;
     `unwrap`/`unwrap_or` stay outside (finding V28: a builtin's `null` result is not pushed — witness on both
     models), their instructions are described.
-   (Proofs of 9–21: `Lemmas/SimH*.lean`; the simulation is combined in `SimHAll.allP`. From
+22. `compileCast_frag`, `cast_spec`, `cast_scalar`, `cast_vm`, `cast_vm_throw`, `cast_correct_partial`,
+    `castExpr_correct` — casts `e as T` to a scalar type (`Frag.castTyOK`), in every expression position; the cast
+    exception is the VM's catchable interrupt at the `Cast` instruction. `cast_correct_full` (any target type) is
+    stated, not proved. Example: `toInt`/`flag`/`safe`/`main` with a cast exception caught one activation up.
+23. `compileIdxCompound_frag`, `compileMemCompound_frag`, `dup_vm`, `idxCompound_correct`, `memCompound_correct`,
+    `compileSome_frag`, `some_spec`, `some_correct` — `l[i] op= e`, `o.f op= e` and `?e` by name (instances of
+    sections 17, 18, 20); `unwrapOr_null_witness`, `forList_snapshot_witness`, `fnValue_repr_witness` — why
+    `unwrap_or`, `for` over a list and calls through function values are outside the simulation.
+   (Proofs of 9–23: `Lemmas/SimH*.lean`; the simulation is combined in `SimHAll.allP`. From
    section 9 on, VM runs are `execHN` — instruction sequences including `Core.Run`'s exception
    dispatch — and the states `mkS s calls mp k stk mem w` carry a world `w` = heap and output.)
 -/
@@ -4094,5 +4102,505 @@ example : ∃ K, ∀ quantum, K ≤ quantum → ∀ vfuel, ∃ s',
     obtain ⟨s', hrun, hst, hmp, hcalls, hstk⟩ := hK quantum hq vfuel
     exact ⟨s', hrun, by rw [hst]; exact hs, hmp, hcalls⟩
 end Example21
+
+/-! ## 22. Casts `e as T` to a scalar type
+
+`e as T` is `code(e); Cast(T, perform_cast=true)`. Both sides run the same function on the operand —
+`castVal castFuel v T true "" sp` (`value.DeepCast`) —, the VM on its own state. For the target types of
+`Frag.castTyOK` (`int`, `float`, `bool`, `str`, `null`, `range`, `any`) the function converts between
+`bool`/`int`/`float`, passes a value of the target kind through, and answers everything else with the catchable
+cast exception (`Cast error: Incompatible values: …`, at the span of the cast); it looks at the heap only to name
+the kind of a container in that message and changes nothing (`cast_scalar`). Casts to list, object and option
+types build new containers and stay outside the simulated fragment (`cast_correct_full`). -/
+
+/-- **What `compileExpr` emits for `e as T`** (`Frag.okE true`): `code(e); Cast(T, true)`. -/
+theorem compileCast_frag (fuel : Nat) (sp : Span) (ty : Ty) (e : Expr) (cs : CState)
+    (hs : Frag.okE true (.cast sp ty e) = true) (hd : Frag.cdE (.cast sp ty e) ≤ fuel)
+    (hws : Frag.wsGE cs.scopes (φOf cs) (.cast sp ty e) = true) :
+    (compileExpr fuel (.cast sp ty e)).run cs =
+      ((), updS cs cs.loops
+        ((cgE cs.currModule (ρS cs.scopes) (φOf cs) e cs.labelMangle).1 ++ [(.cast ty true, sp)])
+        { envOf cs with lm := (cgE cs.currModule (ρS cs.scopes) (φOf cs) e cs.labelMangle).2 }) := by
+  have h := compileExpr_xfrag true fuel _ cs hs hd hws
+  rwa [cgE] at h
+
+/-- **The specification's `e as T`**: the operand, then `castVal` with conversions allowed, at the span of the
+cast. -/
+theorem cast_spec (cfg : Cfg) (fuel : Nat) (sp : Span) (ty : Ty) (e : Expr) (st : St) :
+    evalExpr cfg (fuel + 1) (.cast sp ty e) st =
+      match evalExpr cfg fuel e st with
+      | (.ok v, st1) => castVal castFuel v ty true "" sp st1
+      | (.error c, st1) => (.error c, st1) :=
+  evalExpr_cast cfg fuel sp ty e st
+
+/-- **A cast to a scalar type reads the heap and writes nothing**: the state is left as it is, the result
+depends on the heap only, and an error is the catchable cast exception or lies outside the model (a dangling
+reference, `int64(f)` of a float outside the `int64` range). -/
+theorem cast_scalar (v : Val) (ty : Ty) (hty : Frag.castTyOK ty = true) (sp : Span) (st : St) :
+    (castVal castFuel v ty true "" sp st).2 = st ∧
+    (∀ st' : St, st'.heap = st.heap →
+      castVal castFuel v ty true "" sp st' = ((castVal castFuel v ty true "" sp st).1, st')) ∧
+    (∀ c st', castVal castFuel v ty true "" sp st = (.error c, st') →
+      (∃ msg tsp, c = .throw msg tsp) ∨ ∃ w, c = .unsupported w) := by
+  obtain ⟨hHO, hErr⟩ := castVal_scalar v ty hty sp
+  exact ⟨hHO.state st, fun st' h => hHO st st' h, fun c st' h => hErr st c st' h⟩
+
+/-- **The VM's `Cast`, conversion possible**: the operand on top of the stack is replaced by the converted value
+(which carries no origin). -/
+theorem cast_vm (code : Code) (lim : Limits) (s : VMState) (fn : String) (ip : Nat)
+    (rest : List Frame) (mp : Int) (k : Nat) (stk : List SVal) (mem : List (Int × Val)) (out : World)
+    (c : List (RInstr × Span)) (hf : findCode code fn = some c) (sp : Span) (ty : Ty) (allow : Bool) (v v' : Val)
+    (o : Option Org) (hx : c[ip]? = some (.cast ty allow, sp))
+    (hr : castVal castFuel v ty allow "" sp { s.st with heap := out.heap, out := out.out } =
+      (.ok v', { s.st with heap := out.heap, out := out.out })) :
+    exec1 code lim (mkS s (⟨fn, ip⟩ :: rest) mp k (⟨v, o⟩ :: stk) mem out) =
+      .next (mkS s (⟨fn, ip + 1⟩ :: rest) mp (k + 1) (⟨v', none⟩ :: stk) mem out) :=
+  mkS_cast_ok code lim s fn ip rest mp k stk mem out c hf sp ty allow v v' o hx hr
+
+/-- **The VM's `Cast`, conversion impossible**: the catchable exception interrupt with the message and span of
+`castVal`; the operand is popped, the instruction pointer stays (the dispatch of `Core.Run` takes over). -/
+theorem cast_vm_throw (code : Code) (lim : Limits) (s : VMState) (fn : String) (ip : Nat)
+    (rest : List Frame) (mp : Int) (k : Nat) (stk : List SVal) (mem : List (Int × Val)) (out : World)
+    (c : List (RInstr × Span)) (hf : findCode code fn = some c) (sp : Span) (ty : Ty) (allow : Bool) (v : Val)
+    (o : Option Org) (msg : String) (tsp : Span) (hx : c[ip]? = some (.cast ty allow, sp))
+    (hr : castVal castFuel v ty allow "" sp { s.st with heap := out.heap, out := out.out } =
+      (.error (.throw msg tsp), { s.st with heap := out.heap, out := out.out })) :
+    exec1 code lim (mkS s (⟨fn, ip⟩ :: rest) mp k (⟨v, o⟩ :: stk) mem out) =
+      .intr (.throw msg tsp) (mkS s (⟨fn, ip⟩ :: rest) mp (k + 1) stk mem out) :=
+  mkS_cast_throw code lim s fn ip rest mp k stk mem out c hf sp ty allow v o msg tsp hx hr
+
+/-- The cast step at full strength: *any* target type — also list, object and option types, where `castVal`
+allocates the converted containers. Not proved: it needs `castVal`'s frame property and the preservation of
+the heap invariant (`HeapInv`) through the mutual recursion `castVal`/`castList`/`castFields`/`deepCloneFields`;
+the two sides still run the same function on the same heap. -/
+def cast_correct_full : Prop :=
+  ∀ (G : GCtx) (A : Act), A.OK G → ∀ (n : Nat) (sp : Span) (ty : Ty) (e : Expr)
+    (st : St) (ip : Nat) (stk : List SVal) (mem : Mem) (lm : LM) (scopes : CScopes),
+    Placed A.lab A.σ A.c ip (cgE G.mod (ρS scopes) A.φ (.cast sp ty e) lm).1 →
+    SpecOK G A.mp st →
+    Sim.SimGE G A ip (nI (cgE G.mod (ρS scopes) A.φ e lm).1) stk mem st (evalExpr G.cfg n e st) →
+    Sim.SimGE G A ip (nI ((cgE G.mod (ρS scopes) A.φ e lm).1 ++ [(.cast ty true, sp)])) stk mem st
+      (evalExpr G.cfg (n + 1) (.cast sp ty e) st)
+
+/-- **`e as T` is simulated for scalar `T`** (`cast_correct_full` restricted to `Frag.castTyOK`), given the
+simulation of `e`: the specification's converted value is what the VM leaves on its stack; the specification's
+cast exception (message and span) is the interrupt the VM raises at the `Cast` instruction, with the operand
+popped and memory as the operand left it. -/
+theorem cast_correct_partial (G : GCtx) (A : Act) (hA : A.OK G) (n : Nat) (sp : Span) (ty : Ty) (e : Expr)
+    (hty : Frag.castTyOK ty = true)
+    (st : St) (ip : Nat) (stk : List SVal) (mem : Mem) (lm : LM) (scopes : CScopes)
+    (hpl : Placed A.lab A.σ A.c ip (cgE G.mod (ρS scopes) A.φ (.cast sp ty e) lm).1)
+    (he : Sim.SimGE G A ip (nI (cgE G.mod (ρS scopes) A.φ e lm).1) stk mem st (evalExpr G.cfg n e st)) :
+    Sim.SimGE G A ip (nI ((cgE G.mod (ρS scopes) A.φ e lm).1 ++ [(.cast ty true, sp)])) stk mem st
+      (evalExpr G.cfg (n + 1) (.cast sp ty e) st) := by
+  have h := cast_step G A hA n sp ty e hty st ip stk mem lm scopes hpl he
+  rwa [cgE] at h
+
+/-- **Scalar casts anywhere an expression may stand** (`G.fr = true`): an instance of `expr_correctX` — the
+expression fragment `Frag.okE true` is closed under `e as T` for `Frag.castTyOK T`, so casts occur in
+conditions, arguments, `return`, right-hand sides, inside `try` (where the cast exception is caught). -/
+theorem castExpr_correct (G : GCtx) (hG : G.OK') (fuel : Nat) (A : Act) (hA : A.OK G) (sp : Span) (ty : Ty)
+    (e0 : Expr) (st : St)
+    (ip : Nat) (stk : List SVal) (mem : Mem) (lm : LM) (scopes : CScopes) (vm : List (String × Nat))
+    (e : Expr) (he : e = .cast sp ty e0)
+    (hs : Frag.okE G.fr e = true) (hws : Frag.wsGE scopes A.φ e = true)
+    (hT : ∀ x ∈ Frag.namesGE e, x ∈ A.T)
+    (hpl : Placed A.lab A.σ A.c ip (cgE G.mod (ρS scopes) A.φ e lm).1)
+    (hrel : StRel G.mod A.T A.N A.σ G.lim A.mp scopes vm st.scopes mem) (hsp : SpecOK G A.mp st) :
+    Sim.SimGE G A ip (nI (cgE G.mod (ρS scopes) A.φ e lm).1) stk mem st (evalExpr G.cfg fuel e st) := by
+  subst he
+  exact expr_correctX G hG fuel A hA _ st ip stk mem lm scopes vm hs hws hT hpl hrel hsp
+
+section Example22
+private def spCast : Span := ⟨3, 5, 3, 12⟩
+private def gcast (sp : Span) (ty : Ty) (e : Expr) : Expr := .cast sp ty e
+
+/-- `castVal` on the scalars: `true as int = 1`, `5 as bool = true`, `0 as bool = false`; a string is not an
+`int`: the cast exception. -/
+example :
+    (match castVal castFuel (.bool true) .int true "" sp0 {} with | (.ok (.int i), _) => i.toInt | _ => -1) = 1 ∧
+    (match castVal castFuel (.int 5) .bool true "" sp0 {} with | (.ok (.bool b), _) => b | _ => false) = true ∧
+    (match castVal castFuel (.int 0) .bool true "" sp0 {} with | (.ok (.bool b), _) => b | _ => true) = false ∧
+    (match castVal castFuel (.str "x") .int true "" spCast {} with
+      | (.error (.throw m sp), _) => (m, sp.sl) | _ => ("?", 0)) =
+      ("Cast error: Incompatible values: a value of type 'string' is not compatible with a value of type 'int'", 3) := by
+  refine ⟨?_, ?_, ?_, ?_⟩ <;> decide +kernel
+
+/-- `fn toInt(v: any) -> int { v as int }` -/
+def toIntE : Expr := gcast spCast .int (gv "v")
+def toIntFd : FnDef := gfn "toInt" ["v"] .int [] (some toIntE)
+/-- `let b = n as bool; let k = (b as int) + ((n > 2) as int);` -/
+def flagStmts : List Stmt :=
+  [ .letS sp0 "b" .bool false .bool (gcast sp0 .bool (gv "n")),
+    .letS sp0 "k" .int false .int
+      (.infix sp0 .int .add (gcast sp0 .int (.ident sp0 .bool "b" false false false))
+        (gcast sp0 .int (.infix sp0 .bool .gt (gv "n") (.int sp0 2)))) ]
+/-- `fn flag(n: int) -> int { …; k }` -/
+def flagFd : FnDef := gfn "flag" ["n"] .int flagStmts (some (gv "k"))
+/-- `let r = 0; try { r = toInt(v); println("ok", r); } catch e { println("caught"); r = 0 - 1; }` -/
+def safe2Stmts : List Stmt :=
+  [ .letS sp0 "r" .int false .int (.int sp0 0),
+    gtry [gasgn "r" (gcall "toInt" [gv "v"]), gprint [.str sp0 "ok", gv "r"]] "e"
+      [gprint [.str sp0 "caught"], gasgn "r" (.infix sp0 .int .sub (.int sp0 0) (.int sp0 1))] ]
+/-- `fn safe(v: any) -> int { …; r }` -/
+def safe2Fd : FnDef := gfn "safe" ["v"] .int safe2Stmts (some (gv "r"))
+/-- `fn main() { println(flag(5)); println(safe(true)); println(safe("x")); }` -/
+def main10Stmts : List Stmt :=
+  [ gprint [gcall "flag" [.int sp0 5]], gprint [gcall "safe" [.bool sp0 true]], gprint [gcall "safe" [.str sp0 "x"]] ]
+def main10Fd : FnDef := gfn "main" [] .null main10Stmts none
+def progC : Program :=
+  [{ name := "main", imports := [], singletons := [], globals := [], nImpls := 0,
+     fns := [toIntFd, flagFd, safe2Fd, main10Fd] }]
+
+/-- The whole program on the models themselves: the specification … -/
+example : (match runProgram { prog := progC } 200 with | .ok out _ => out | _ => "?") =
+    "2\nok 1\n1\ncaught\n-1\n" := by
+  decide +kernel
+/-- … and the VM, which ends with a clean core (no handler left). -/
+example : (match compile progC "main" 100 with
+    | .ok c => (match runMain c {} 50 20000 with
+      | .ok s => (s.st.out, s.stack.length, s.mp, s.handlers.length) | _ => ("?", 0, 0, 0))
+    | .error e => (e, 0, 0, 0)) = ("2\nok 1\n1\ncaught\n-1\n", 0, 0, 0) := by
+  decide +kernel
+
+def φC : String → Option String := fun n =>
+  if n = "toInt" then some "@main.toInt" else if n = "flag" then some "@main.flag"
+  else if n = "safe" then some "@main.safe" else none
+def symToInt : SCode := cgFn "main" φC toIntFd [] (some toIntE) [[]] [] []
+def symFlag : SCode := cgFn "main" φC flagFd flagStmts (some (gv "k")) [[]] [] []
+def symSafe2 : SCode := cgFn "main" φC safe2Fd safe2Stmts (some (gv "r")) [[]] [] []
+def symMain10 : SCode := cgFn "main" φC main10Fd main10Stmts none [[]] [] []
+def codeC : Code := [⟨"@main.toInt", renameVars (relG symToInt)⟩, ⟨"@main.flag", renameVars (relG symFlag)⟩,
+  ⟨"@main.safe", renameVars (relG symSafe2)⟩, ⟨"@main.main", renameVars (relG symMain10)⟩]
+
+local instance (priority := high) : BEq PVal := ⟨pvalBeq⟩
+/-- The target types of `Cast` are compared constructor by constructor (the derived `BEq` of the nested type `Ty`
+is not evaluated by the kernel). -/
+private def tyBeqC : Ty → Ty → Bool
+  | .int, .int | .float, .float | .bool, .bool | .str, .str | .null, .null | .range, .range | .any, .any => true
+  | _, _ => false
+private def instrBeqC : RInstr → RInstr → Bool
+  | .cast t a, .cast t' a' => tyBeqC t t' && a == a'
+  | x, y => x == y
+private def codeBeqC (a b : List (RInstr × Span)) : Bool :=
+  a.length == b.length && (a.zip b).all fun xy => instrBeqC xy.1.1 xy.2.1 && xy.1.2 == xy.2.2
+/-- The real compiler produces `codeC` (kernel evaluation, instruction by instruction). -/
+example : (match compile progC "main" 100 with
+    | .ok c => (((c.fns.filter fun f => f.name != "@main.@init").zip codeC).all fun fg =>
+        fg.1.name == fg.2.name && codeBeqC fg.1.code fg.2.code) &&
+        (c.fns.filter fun f => f.name != "@main.@init").length == codeC.length
+    | .error _ => false) = true := by decide +kernel
+
+def GC : GCtx :=
+  ⟨{ prog := progC }, codeC, {}, "main", {}, fun g => g = "toInt" ∨ g = "flag" ∨ g = "safe", 12, 0, true⟩
+
+private theorem phiC : PhiOK GC φC := by
+  intro name f h
+  unfold φC at h
+  split at h
+  · rename_i hn; subst hn; cases h
+    exact ⟨by decide +kernel, Or.inl rfl, toIntFd, rfl, rfl⟩
+  · split at h
+    · rename_i hn; subst hn; cases h
+      exact ⟨by decide +kernel, Or.inr (Or.inl rfl), flagFd, rfl, rfl⟩
+    · split at h
+      · rename_i hn; subst hn; cases h
+        exact ⟨by decide +kernel, Or.inr (Or.inr rfl), safe2Fd, rfl, rfl⟩
+      · cases h
+
+theorem fnOK_toInt : FnOK GC "toInt" toIntFd
+    ⟨renameVars (relG symToInt), slotFn (relG symToInt), labelIndex symToInt, (· ∈ varNames (relG symToInt)),
+      ["v"], φC, [[]], [], []⟩ [] toIntE :=
+  fn_compiled_okF GC toIntFd [] toIntE φC [[]] [] [] ["v"] (relG symToInt) ⟨sp0, .int, rfl⟩
+    (by decide) (relocate_relG _ (by decide +kernel))
+    (by
+      have h : mangleFnName GC.mod toIntFd.name = "@main.toInt" := by decide +kernel
+      rw [h]; simp [findCode, codeC, GC])
+    (by decide +kernel) (by decide +kernel) (by decide +kernel) (by decide +kernel)
+    (by decide +kernel) (by decide +kernel) (by decide +kernel) (by decide +kernel) (by decide +kernel)
+    (by decide +kernel) phiC
+
+theorem fnOK_flag : FnOK GC "flag" flagFd
+    ⟨renameVars (relG symFlag), slotFn (relG symFlag), labelIndex symFlag, (· ∈ varNames (relG symFlag)),
+      ["n", "b", "k"], φC, [[]], [], []⟩ flagStmts (gv "k") :=
+  fn_compiled_okF GC flagFd flagStmts (gv "k") φC [[]] [] [] ["n", "b", "k"] (relG symFlag) ⟨sp0, .int, rfl⟩
+    (by decide) (relocate_relG _ (by decide +kernel))
+    (by
+      have h : mangleFnName GC.mod flagFd.name = "@main.flag" := by decide +kernel
+      rw [h]; simp [findCode, codeC, GC])
+    (by decide +kernel) (by decide +kernel) (by decide +kernel) (by decide +kernel)
+    (by decide +kernel) (by decide +kernel) (by decide +kernel) (by decide +kernel) (by decide +kernel)
+    (by decide +kernel) phiC
+
+theorem fnOK_safe2 : FnOK GC "safe" safe2Fd
+    ⟨renameVars (relG symSafe2), slotFn (relG symSafe2), labelIndex symSafe2, (· ∈ varNames (relG symSafe2)),
+      ["v", "r", "e", "toInt", "println"], φC, [[]], [], []⟩ safe2Stmts (gv "r") :=
+  fn_compiled_okF GC safe2Fd safe2Stmts (gv "r") φC [[]] [] [] ["v", "r", "e", "toInt", "println"] (relG symSafe2)
+    ⟨sp0, .int, rfl⟩ (by decide) (relocate_relG _ (by decide +kernel))
+    (by
+      have h : mangleFnName GC.mod safe2Fd.name = "@main.safe" := by decide +kernel
+      rw [h]; simp [findCode, codeC, GC])
+    (by decide +kernel) (by decide +kernel) (by decide +kernel) (by decide +kernel)
+    (by decide +kernel) (by decide +kernel) (by decide +kernel) (by decide +kernel) (by decide +kernel)
+    (by decide +kernel) phiC
+
+theorem gc_ok : GC.OK' := by
+  refine ⟨?_, by decide, by decide, rfl, rfl, rfl⟩
+  intro g fd hK hfind
+  rcases hK with rfl | rfl | rfl
+  · have h : findFn GC.cfg.prog GC.mod "toInt" = some toIntFd := rfl
+    rw [h] at hfind; cases hfind
+    exact ⟨_, _, _, fnOK_toInt, fun _ => by decide⟩
+  · have h : findFn GC.cfg.prog GC.mod "flag" = some flagFd := rfl
+    rw [h] at hfind; cases hfind
+    exact ⟨_, _, _, fnOK_flag, fun _ => by decide⟩
+  · have h : findFn GC.cfg.prog GC.mod "safe" = some safe2Fd := rfl
+    rw [h] at hfind; cases hfind
+    exact ⟨_, _, _, fnOK_safe2, fun _ => by decide⟩
+
+theorem fnOK_main10 : FnVoidOK GC "main" main10Fd
+    ⟨renameVars (relG symMain10), slotFn (relG symMain10), labelIndex symMain10, (· ∈ varNames (relG symMain10)),
+      ["println", "flag", "safe"], φC, [[]], [], []⟩ main10Stmts :=
+  fn_void_compiled_okF GC main10Fd main10Stmts φC [[]] [] [] ["println", "flag", "safe"] (relG symMain10)
+    ⟨sp0, .null, rfl⟩ (by decide) (relocate_relG _ (by decide +kernel))
+    (by
+      have h : mangleFnName GC.mod main10Fd.name = "@main.main" := by decide +kernel
+      rw [h]; simp [findCode, codeC, GC])
+    (by decide +kernel) (by decide +kernel) (by decide +kernel) (by decide +kernel)
+    (by decide +kernel) (by decide +kernel) (by decide +kernel) phiC
+
+private theorem spec_main10 :
+    okOut "2\nok 1\n1\ncaught\n-1\n" (callBody GC.cfg 200 sp0 GC.mod main10Fd.params main10Fd.body [] stX) = true := by
+  decide +kernel
+
+/-- **The program through the theorems**: `flag(5)` converts an `int` to `bool`, a `bool` variable and a
+comparison to `int` inside an addition: `2`; `safe(true)` casts `true` to `1` in `toInt`; in `safe("x")` the cast
+in `toInt` — one activation below the `try` — raises the cast exception, which `Core.Run` dispatches to the handler
+of `safe`: `caught`, `-1`. `run` on the compiled code ends with `ok` and the specification's output. -/
+example : ∃ K, ∀ quantum, K ≤ quantum → ∀ vfuel, ∃ s',
+    run codeC {} quantum none (vfuel + 1) { calls := [⟨"@main.main", 0⟩] } = .ok s' ∧
+    s'.st.out = "2\nok 1\n1\ncaught\n-1\n" ∧ s'.mp = 0 ∧ s'.calls = [] := by
+  obtain ⟨fuel, hfuel⟩ : ∃ n : Nat, n = 200 := ⟨200, rfl⟩
+  have h := entry_runF GC gc_ok fuel "main" main10Fd _ main10Stmts fnOK_main10 (fun _ => by decide) sp0 stX 0 []
+    ⟨[], ⟨[], 0⟩⟩ ⟨fun _ => HeapInv.empty, rfl, rfl, by decide⟩ (by decide) (by decide) (by decide)
+  subst hfuel
+  have hs := spec_main10
+  rcases hev : callBody GC.cfg 200 sp0 GC.mod main10Fd.params main10Fd.body [] stX with ⟨res, st'⟩
+  rw [hev] at h hs
+  cases res with
+  | error e => simp [okOut] at hs
+  | ok v =>
+    simp only [okOut, beq_iff_eq] at hs
+    obtain ⟨K, hK⟩ := h
+    refine ⟨K, fun quantum hq vfuel => ?_⟩
+    obtain ⟨s', hrun, hst, hmp, hcalls, hstk⟩ := hK quantum hq vfuel
+    exact ⟨s', hrun, by rw [hst]; exact hs, hmp, hcalls⟩
+end Example22
+
+/-! ## 23. Compound assignment to cells and `?e` by name; what stays outside, with witnesses
+
+`l[i] op= e` and `o.f op= e` are the case `op = some o` of `idxAssign_correct` / `memAssign_correct` (sections 17,
+18), `?e` is the prefix operator `some` of the expression fragment (sections 3–5, 20): the statements are
+repeated here for these constructs alone, with the instruction the compiler adds (`Duplicate` of the resolved
+cell pointer, `Some`). Three constructs stay outside the simulation, each for a reason that is visible on the
+models and recorded as a kernel-checked witness: `unwrap_or` (finding V28), `for` over a list (the VM's snapshot
+cell), function values (the two sides represent them differently). -/
+
+/-- **What `compileStmt` emits for `l[i] op= e`**: the target is compiled *once* — `code(l); code(i); Index`
+leaves the element with the pointer to its cell — and duplicated: `Duplicate; code(e); op; Assign`. -/
+theorem compileIdxCompound_frag (fuel : Nat) (sp asp : Span) (o : InfixOp) (isp : Span) (ity : Ty) (b i r : Expr)
+    (cs : CState) (fr il rt : Bool)
+    (hrt : rt = true → cs.tryDepth = 0) (hil : il = true → ∃ b c rest, cs.loops = (b, c, cs.tryDepth) :: rest)
+    (hs : Frag.okFS fr il rt (.exprS sp (.assign asp (some o) (.index isp ity b i) r)) = true)
+    (hd : Frag.cdS (.exprS sp (.assign asp (some o) (.index isp ity b i) r)) ≤ fuel)
+    (hws : Frag.wsGS cs.currModule cs.currFn (φOf cs) (loopsOf cs.loops)
+      (.exprS sp (.assign asp (some o) (.index isp ity b i) r)) (envOf cs) = true) :
+    let cl := cgE cs.currModule (ρS cs.scopes) (φOf cs) (.index isp ity b i) cs.labelMangle
+    let cr := cgE cs.currModule (ρS cs.scopes) (φOf cs) r cl.2
+    (compileStmt fuel (.exprS sp (.assign asp (some o) (.index isp ity b i) r))).run cs =
+      ((), updS cs cs.loops (cl.1 ++ [(.dup, asp)] ++ cr.1 ++ (arithI o).map (·, asp) ++ [(.assign, asp)])
+        { envOf cs with lm := cr.2 }) :=
+  compileIdxAssign_frag fuel sp asp (some o) isp ity b i r cs fr il rt hrt hil hs hd hws
+
+/-- **What `compileStmt` emits for `o.f op= e`**: `code(o); Member f; Duplicate; code(e); op; Assign`. -/
+theorem compileMemCompound_frag (fuel : Nat) (sp asp : Span) (o : InfixOp) (msp : Span) (mty : Ty) (b : Expr)
+    (name : String) (r : Expr) (cs : CState) (fr il rt : Bool)
+    (hrt : rt = true → cs.tryDepth = 0) (hil : il = true → ∃ b c rest, cs.loops = (b, c, cs.tryDepth) :: rest)
+    (hs : Frag.okFS fr il rt (.exprS sp (.assign asp (some o) (.member msp mty b name .dot) r)) = true)
+    (hd : Frag.cdS (.exprS sp (.assign asp (some o) (.member msp mty b name .dot) r)) ≤ fuel)
+    (hws : Frag.wsGS cs.currModule cs.currFn (φOf cs) (loopsOf cs.loops)
+      (.exprS sp (.assign asp (some o) (.member msp mty b name .dot) r)) (envOf cs) = true) :
+    let cl := cgE cs.currModule (ρS cs.scopes) (φOf cs) (.member msp mty b name .dot) cs.labelMangle
+    let cr := cgE cs.currModule (ρS cs.scopes) (φOf cs) r cl.2
+    (compileStmt fuel (.exprS sp (.assign asp (some o) (.member msp mty b name .dot) r))).run cs =
+      ((), updS cs cs.loops (cl.1 ++ [(.dup, asp)] ++ cr.1 ++ (arithI o).map (·, asp) ++ [(.assign, asp)])
+        { envOf cs with lm := cr.2 }) :=
+  compileMemAssign_frag fuel sp asp (some o) msp mty b name r cs fr il rt hrt hil hs hd hws
+
+/-- **The VM's `Duplicate`** copies the top of the stack *with its origin*: after it the cell pointer is there
+twice — one copy is consumed by the operation, the other by `Assign`. -/
+theorem dup_vm (code : Code) (lim : Limits) (s : VMState) (fn : String) (ip : Nat)
+    (rest : List Frame) (mp : Int) (k : Nat) (stk : List SVal) (mem : List (Int × Val)) (out : World)
+    (c : List (RInstr × Span)) (hf : findCode code fn = some c) (sp : Span) (x : SVal)
+    (hx : c[ip]? = some (.dup, sp)) :
+    exec1 code lim (mkS s (⟨fn, ip⟩ :: rest) mp k (x :: stk) mem out) =
+      .next (mkS s (⟨fn, ip + 1⟩ :: rest) mp (k + 1) (x :: x :: stk) mem out) :=
+  mkS_dup code lim s fn ip rest mp k stk mem out c hf sp x hx
+
+/-- **`l[i] op= e` is simulated** (`idxAssign_correct` at `op = some o`; the specification: `idxAssign_spec` —
+the slot is resolved once, before the right-hand side; `o` is an arithmetic, comparison or bit operator and `e`
+calls no function, finding V38). -/
+theorem idxCompound_correct (G : GCtx) (hG : G.OK') (fuel : Nat) (A : Act) (hA : A.OK G)
+    (loops : List (String × String)) (lscopes : CScopes) (d : Nat) (sp asp : Span) (o : InfixOp)
+    (isp : Span) (ity : Ty) (b i r : Expr) (env : CEnv) (spec : St) (ip : Nat) (stk : List SVal) (mem : Mem)
+    (stmt : Stmt) (hstmt : stmt = .exprS sp (.assign asp (some o) (.index isp ity b i) r))
+    (hs : Frag.okFS G.fr (!loops.isEmpty) A.rt stmt = true) (hT : ∀ x ∈ Frag.identsGS stmt, x ∈ A.T)
+    (hws : Frag.wsGS G.mod A.src A.φ loops stmt env = true)
+    (hN : ∀ m ∈ codeVars (cgS G.mod A.src A.φ loops stmt env).1, A.N m)
+    (hpl : Placed A.lab A.σ A.c ip (cgS G.mod A.src A.φ loops stmt env).1)
+    (hd : 1 ≤ d) (hls : lscopes = env.scopes.drop d)
+    (hrel : Sim.GRel G A env.scopes env.vm spec.scopes mem) (hsp : SpecOK G A.mp spec) :
+    Sim.SimGS G A loops lscopes d ip (nI (cgS G.mod A.src A.φ loops stmt env).1) stk mem
+      (Sim.GRel G A (cgS G.mod A.src A.φ loops stmt env).2.scopes (cgS G.mod A.src A.φ loops stmt env).2.vm) spec
+      (evalStmt G.cfg fuel stmt spec) :=
+  idxAssign_correct G hG fuel A hA loops lscopes d sp asp (some o) isp ity b i r env spec ip stk mem stmt hstmt hs hT hws
+    hN hpl hd hls hrel hsp
+
+/-- **`o.f op= e` is simulated** (`memAssign_correct` at `op = some o`). -/
+theorem memCompound_correct (G : GCtx) (hG : G.OK') (fuel : Nat) (A : Act) (hA : A.OK G)
+    (loops : List (String × String)) (lscopes : CScopes) (d : Nat) (sp asp : Span) (o : InfixOp)
+    (msp : Span) (mty : Ty) (b : Expr) (name : String) (r : Expr) (env : CEnv) (spec : St) (ip : Nat)
+    (stk : List SVal) (mem : Mem)
+    (stmt : Stmt) (hstmt : stmt = .exprS sp (.assign asp (some o) (.member msp mty b name .dot) r))
+    (hs : Frag.okFS G.fr (!loops.isEmpty) A.rt stmt = true) (hT : ∀ x ∈ Frag.identsGS stmt, x ∈ A.T)
+    (hws : Frag.wsGS G.mod A.src A.φ loops stmt env = true)
+    (hN : ∀ m ∈ codeVars (cgS G.mod A.src A.φ loops stmt env).1, A.N m)
+    (hpl : Placed A.lab A.σ A.c ip (cgS G.mod A.src A.φ loops stmt env).1)
+    (hd : 1 ≤ d) (hls : lscopes = env.scopes.drop d)
+    (hrel : Sim.GRel G A env.scopes env.vm spec.scopes mem) (hsp : SpecOK G A.mp spec) :
+    Sim.SimGS G A loops lscopes d ip (nI (cgS G.mod A.src A.φ loops stmt env).1) stk mem
+      (Sim.GRel G A (cgS G.mod A.src A.φ loops stmt env).2.scopes (cgS G.mod A.src A.φ loops stmt env).2.vm) spec
+      (evalStmt G.cfg fuel stmt spec) :=
+  memAssign_correct G hG fuel A hA loops lscopes d sp asp (some o) msp mty b name r env spec ip stk mem stmt hstmt hs hT
+    hws hN hpl hd hls hrel hsp
+
+/-- Non-vacuity: the compound assignments `l[-1] += 4` of `progL` (section 17) and `o.y += 5` of `progO`
+(section 18) are statements of the fragment, and their code carries the `Duplicate` — both programs run through
+the theorems in the examples of those sections. -/
+example :
+    Frag.okFS true false true (gset (some .add) "l" (.int sp0 (-1)) (.int sp0 4)) = true ∧
+    Frag.okFS false false true (gsetf (some .add) (go "o") "y" (.int sp0 5)) = true ∧
+    (((cgS "main" "build" φL [] (gset (some .add) "l" (.int sp0 (-1)) (.int sp0 4)) ⟨[[("l", "@main.l.0")]], [], [], 0⟩).1.map
+      (·.1)) == [.getVar "@main.l.0", .copyPush (.int (-1)), .index, .dup, .copyPush (.int 4), .add, .assign]) = true := by
+  refine ⟨by decide +kernel, by decide +kernel, by decide +kernel⟩
+
+/-- **What `compileExpr` emits for `?e`**: `code(e); Some`. -/
+theorem compileSome_frag (mod : String) (ρ φ : String → Option String) (sp : Span) (ty : Ty) (e : Expr) (lm : LM) :
+    cgE mod ρ φ (.pre sp ty .some e) lm = ((cgE mod ρ φ e lm).1 ++ [(.some, sp)], (cgE mod ρ φ e lm).2) := by
+  simp only [cgE, preI]
+
+/-- **The specification's `?e`**: the value of `e`, wrapped. -/
+theorem some_spec (cfg : Cfg) (fuel : Nat) (sp : Span) (ty : Ty) (e : Expr) (st : St) :
+    evalExpr cfg (fuel + 1) (.pre sp ty .some e) st =
+      match evalExpr cfg fuel e st with
+      | (.ok v, st1) => (.ok (.opt (some v)), st1)
+      | (.error c, st1) => (.error c, st1) := by
+  rw [evalExpr_pre]
+  rcases evalExpr cfg fuel e st with ⟨r, st1⟩
+  cases r <;> rfl
+
+/-- **`?e` is simulated** (an instance of `expr_correctX`; for `e` without calls and cell reads also of
+`compiled_pure_correct`): the VM's `Some` wraps the operand the code of `e` left on the stack. -/
+theorem some_correct (G : GCtx) (hG : G.OK') (fuel : Nat) (A : Act) (hA : A.OK G) (sp : Span) (ty : Ty)
+    (e0 : Expr) (st : St)
+    (ip : Nat) (stk : List SVal) (mem : Mem) (lm : LM) (scopes : CScopes) (vm : List (String × Nat))
+    (e : Expr) (he : e = .pre sp ty .some e0)
+    (hs : Frag.okE G.fr e = true) (hws : Frag.wsGE scopes A.φ e = true)
+    (hT : ∀ x ∈ Frag.namesGE e, x ∈ A.T)
+    (hpl : Placed A.lab A.σ A.c ip (cgE G.mod (ρS scopes) A.φ e lm).1)
+    (hrel : StRel G.mod A.T A.N A.σ G.lim A.mp scopes vm st.scopes mem) (hsp : SpecOK G A.mp st) :
+    Sim.SimGE G A ip (nI (cgE G.mod (ρS scopes) A.φ e lm).1) stk mem st (evalExpr G.cfg fuel e st) := by
+  subst he
+  exact expr_correctX G hG fuel A hA _ st ip stk mem lm scopes vm hs hws hT hpl hrel hsp
+
+/-- Non-vacuity: `?5` of `progR` (section 21, run through the theorems there) and `?f(x)` with a call inside are in
+the fragment; the code of `?5`. -/
+example :
+    Frag.okE true (.pre sp0 (.opt .int) .some (.int sp0 5)) = true ∧
+    Frag.okE false (.pre sp0 (.opt .int) .some (gcall "f" [gv "x"])) = true ∧
+    (((cgE "main" (fun _ => none) (fun _ => none) (.pre sp0 (.opt .int) .some (.int sp0 5)) []).1.map (·.1)) ==
+      [.copyPush (.int 5), .some]) = true := by
+  refine ⟨by decide +kernel, by decide +kernel, by decide +kernel⟩
+
+section Witnesses23
+private def progOf (ss : List Stmt) : Program :=
+  [{ name := "main", imports := [], singletons := [], globals := [], nImpls := 0, fns := [gfn "main" [] .null ss none] }]
+
+/-- `let o = ?null; let x = o.unwrap_or(null); println(1);` -/
+private def uoStmts : List Stmt :=
+  [ .letS sp0 "o" (.opt .null) false (.opt .null) (.pre sp0 (.opt .null) .some (.null sp0)),
+    .letS sp0 "x" .null false .null
+      (.call sp0 .null (.member sp0 (.fn [.null] .null) (.ident sp0 (.opt .null) "o" false false false) "unwrap_or" .dot)
+        [("", .null sp0)] false),
+    gprint [.int sp0 1] ]
+
+/-- **Finding V28 on `unwrap_or`** (why `o.unwrap_or(d)` is not in the simulated fragment): when the result is
+`null` the specification completes (output `1`), the VM panics with a stack underflow — `Call_Val` pushed nothing
+for `SetVar x` to pop. Whether the result is `null` is not visible in the program text. -/
+theorem unwrapOr_null_witness :
+    (match runProgram { prog := progOf uoStmts } 200 with | .ok out _ => out | _ => "?") = "1\n" ∧
+    (match compile (progOf uoStmts) "main" 100 with
+      | .ok c => (match runMain c {} 50 20000 with | .panic w _ => w | _ => "?")
+      | .error e => e) = "stack underflow" := by
+  constructor <;> decide +kernel
+
+/-- `let l = [1, 2]; for x in l { println(x); } let m = [3]; println(m);` -/
+private def flStmts : List Stmt :=
+  [ .letS sp0 "l" tyL false tyL (.list sp0 tyL [.int sp0 1, .int sp0 2]),
+    .forS sp0 "x" .int (gl "l") (.mk sp0 .null [gprint [gv "x"]] none),
+    .letS sp0 "m" tyL false tyL (.list sp0 tyL [.int sp0 3]),
+    gprint [gl "m"] ]
+
+/-- **`for` over a list: the VM's snapshot cell** (why `for x in l` is not in the simulated fragment). The two
+sides print the same, but `Clone` allocates a cell for the snapshot of `l` that the specification does not
+have (`iterElems` reads the list in place): after the loop the heaps have 3 and 2 cells, and the list `m` lives at
+address 2 on the VM and at address 1 in the specification. The simulation of sections 17–22 identifies the two
+heaps (same cells at the same addresses); covering this loop needs a relation up to a renaming of addresses
+throughout. Iteration itself is covered: `for_correct` (ranges) runs the rounds over an arbitrary element list. -/
+theorem forList_snapshot_witness :
+    ((fun r : Except Ctl Val × St => (r.2.out, r.2.heap.size))
+      (callBody { prog := progOf flStmts } 200 sp0 "main" [] (.mk sp0 .null flStmts none) [] stX)) = ("1\n2\n[3]\n", 2) ∧
+    (match compile (progOf flStmts) "main" 100 with
+      | .ok c => (match runMain c {} 50 20000 with | .ok s => (s.st.out, s.st.heap.size) | _ => ("?", 0))
+      | .error e => (e, 0)) = ("1\n2\n[3]\n", 3) := by
+  constructor <;> decide +kernel
+
+/-- `let f = fn(a: int) -> int { a };` -/
+private def fLet : Stmt := .letS sp0 "f" (.fn [.int] .int) false (.fn [.int] .int)
+  (.lambda sp0 (.fn [.int] .int) [⟨"a", .int, false, ""⟩] .int (.mk sp0 .int [] (some (gv "a"))))
+/-- `let f = fn(a: int) -> int { a }; println(f(2));` -/
+private def fvStmts : List Stmt :=
+  [ fLet, gprint [.call sp0 .int (.ident sp0 (.fn [.int] .int) "f" false false false) [("", .int sp0 2)] false] ]
+
+/-- **Function values are represented differently** (why `Call_Val` through a function value is not in the
+simulated fragment). Both sides print `2`; but the variable `f` holds `closure 0` — an index into the state's
+closure table — in the specification, and the VM's `Copy_Push` of the compiled literal yields
+`fn "" "@main.$lambda_0"`, the name of a separately compiled function. The simulation relates memory cells and
+stack operands to the specification's values by equality; function values need a value relation (and the
+frame equations a growing closure table) throughout. -/
+theorem fnValue_repr_witness :
+    (match runProgram { prog := progOf fvStmts } 200 with | .ok out _ => out | _ => "?") = "2\n" ∧
+    (match compile (progOf fvStmts) "main" 100 with
+      | .ok c => (match runMain c {} 50 20000 with | .ok s => s.st.out | _ => "?")
+      | .error e => e) = "2\n" ∧
+    (match (evalStmts { prog := progOf fvStmts } 50 [fLet] stX).2.scopes with
+      | [[("f", .closure 0)]] => true | _ => false) = true ∧
+    (match compile (progOf fvStmts) "main" 100 with
+      | .ok c => c.fns.any fun f => f.name == "@main.main" &&
+          f.code.any fun i => match i.1 with | .copyPush (.vmFn "@main.$lambda_0") => true | _ => false
+      | .error _ => false) = true ∧
+    ∀ (st : St) (n : String), pvalToVal st (.vmFn n) = (.fn "" n, st) := by
+  refine ⟨by decide +kernel, by decide +kernel, by decide +kernel, by decide +kernel, fun _ _ => rfl⟩
+end Witnesses23
 
 end HmsProofs.C01VM
